@@ -921,6 +921,20 @@ M_FS(step) ==
 M_Json(msPost, step) ==
   Cl("M_Json", IsRT(step, "json") /\ step.stage \in {"read", "done"} /\ WfJSON(step.ast),
      SameAJ(AbsJ(step.ast), EncAJ(msPost, step.op.h)))
+(* the document the library's PROV-JSON reader returned - content, registered namespaces and     *)
+(* default namespace of the document and of every bundle - is the one the transcription of the    *)
+(* reader (ProvJson.DecJ) produces from what the writer model emits; it fails iff that one fails  *)
+NsSame(obsNs, modNs) == SeqToSet(obsNs.reg) = SeqToSet(modNs.reg) /\ obsNs.dflt = modNs.dflt
+M_JsonBack(msPost, step) ==
+  Cl("M_JsonBack", IsRT(step, "json") /\ step.stage \in {"read", "done"},
+     LET r == DecJ(EncAJ(msPost, step.op.h)) IN
+     IF step.exc # "none" THEN r.exc # "none"
+     ELSE /\ r.exc = "none"
+          /\ LET rd == RdOf(r.st, RH) IN
+             /\ ReadBagEq(rd, step.back)
+             /\ NsSame(step.back.ns, rd.ns)
+             /\ \A i \in 1..Len(step.back.bundles) : \E j \in 1..Len(rd.bundles) :
+                   rd.bundles[j].id = step.back.bundles[i].id /\ NsSame(step.back.bundles[i].ns, rd.bundles[j].ns))
 (* the PROV-N text the library printed is what the transcription of its printer (ProvNW.tla)   *)
 (* produces from the model state: same declarations in the same order, same expressions with   *)
 (* the same arguments and markers in the same positions, same attribute sets                   *)
